@@ -12,6 +12,7 @@ from ..core import cname, ap, walk, show, strip_not, eff_cond, strip_targs
 from ..flow import Flow
 from ..peval import Evaluator, Unknown
 from .. import rules as R
+from .. import regions as G
 
 EXPLANATION = (
     'Static rules over the resolved program. Decided: (1) typestate of TranspositionTable::tbGen x reserved-region flag as an '
@@ -34,6 +35,7 @@ def run(fb, rep, tier):
     c2_generate(fb, rep)
     c3_partition(fb, rep)
     c4_region(fb, rep)
+    c5_probe_scope(fb, rep, 'C12.5')
 
 
 # ----------------------------------------------------------------------------- .1
@@ -619,3 +621,62 @@ def c4_region(fb, rep):
     for nm in ('getByte', 'putByte'):
         g = fb.find1(TT + '::' + nm)
         rep.need(clause, g, TT + '::' + nm)
+
+
+# ----------------------------------------------------------------------------- .5 probe scope
+
+def c5_probe_scope(fb, rep, clause):
+    """K4: the table index holds piece squares and the side to move only.  Castling rights change the value of a
+    position and are not part of the index, so the per-probe import must refuse positions that carry any:
+    every path on which probeDTM answers (`return true`) has passed a test that the castle mask is zero - in
+    probeDTM itself or in the import routine whose success it requires (TBPosition::setPosition, where every
+    non-false return must then be behind that test)."""
+    def castle_zero(g, side):
+        t = g
+        while isinstance(t, dict) and t.get('k') == 'cast':
+            t = t.get('e')
+        if isinstance(t, dict) and t.get('k') == 'call' and cname(t) == 'Position::getCastleMask':
+            return side is False
+        if isinstance(t, dict) and t.get('k') == 'bin' and t.get('op') in ('==', '!='):
+            for x, y in ((t['l'], t['r']), (t['r'], t['l'])):
+                x0 = x
+                while isinstance(x0, dict) and x0.get('k') == 'cast':
+                    x0 = x0.get('e')
+                y0 = y
+                while isinstance(y0, dict) and y0.get('k') == 'cast':
+                    y0 = y0.get('e')
+                if isinstance(x0, dict) and x0.get('k') == 'call' and cname(x0) == 'Position::getCastleMask' and isinstance(y0, dict) and y0.get('cv') == 0:
+                    return (t['op'] == '==') == bool(side)
+        return False
+
+    def guarded_returns(f):
+        """(all non-false returns, those guarded by a castle-mask-is-zero test)"""
+        rets, ok = [], []
+        for b, i, e in f.events():
+            if e.get('k') == 'ret' and e.get('e') is not None and (e['e'].get('cv') != 0 if 'cv' in e['e'] else True):
+                rets.append(e)
+                gs = G.guard_trees(f, set(f.blocks), b)
+                if any(castle_zero(g, sd) for g, sd in gs):
+                    ok.append(e)
+        return rets, ok
+    probes = [f for f in fb.funcs.values() if f.has_cfg and f.sname == 'TBGenerator::probeDTM']
+    rep.floor(clause, 'instantiations of TBGenerator::probeDTM', len(probes), 2)
+    sp = fb.find1('TBPosition::setPosition')
+    if rep.need(clause, sp, 'TBPosition::setPosition') is None:
+        return
+    sr, sok = guarded_returns(sp)
+    import_ok = bool(sr) and len(sr) == len(sok)
+    for f in sorted(probes, key=lambda x: x.key):
+        rets, ok = guarded_returns(f)
+        hits = [e for e in rets if e['e'].get('cv') == 1]
+        # hits that rely on the import routine: guarded by setPosition(...) having succeeded
+        via_import = []
+        for e in hits:
+            b = next(bb for bb, ii, ev in f.events() if ev is e)
+            gs = G.guard_trees(f, set(f.blocks), b)
+            if any(any(n.get('k') == 'call' and cname(n) == 'TBPosition::setPosition' for n in walk(g)) and sd for g, sd in gs):
+                via_import.append(e)
+        good = all((e in ok) or (e in via_import and import_ok) for e in hits)
+        rep.ob(clause, 'K4 probe scope', '%s answers only for positions without castling rights (tested here or in the position import it requires)' % (f.name if '<' in f.name else f.sname),
+               bool(hits) and good, f.where, '%d answering returns, %d behind a successful import; import: %d of %d successful returns behind a castle-mask test' % (
+                   len(hits), len(via_import), len(sok), len(sr)), f.sname)
